@@ -40,6 +40,19 @@ def owner(obj, meth: str) -> tuple[str, str]:
     return (type(obj).__name__, meth)
 
 
+# shared, initially un-aliased subquery objects: the one argument kind the library writes to (automatic sq<n> alias).
+# Re-created before every history (reset_pool); labels named "...#pool*" pass the SAME object to several calls.
+POOL: dict = {}
+
+
+def reset_pool():
+    import pypika_tortoise as P
+
+    POOL.clear()
+    for k in ("A", "B", "C"):
+        POOL[k] = P.Query.from_(P.Table("p" + k.lower())).select("z")
+
+
 class Label:
     def __init__(self, name, meth, fn, extra=()):
         self.name = name      # unique label, e.g. "where#local"
@@ -140,6 +153,9 @@ def families() -> dict[str, Family]:
             L("delete", "delete", lambda r: r.delete()),
             L("update", "update", lambda r: r.update(T("tu"))),
             L("as_", "as_", lambda r: r.as_("sqa")),
+            L("join#poolA", "join", lambda r: r.join(POOL["A"]).on_field("z")),
+            L("join#poolB", "join", lambda r: r.join(POOL["B"]).on_field("z")),
+            L("from_#poolC", "from_", lambda r: r.from_(POOL["C"])),
         ]
         if d == "mssql":
             labels += [L("top", "top", lambda r: r.top(3)), L("fetch_next", "fetch_next", lambda r: r.fetch_next(2))]
